@@ -2,7 +2,8 @@
    Statements only.  [agrees buf size m l]: the object's size is the std size, size <= buffer length, every
    cell the mask marks as written holds the std value, and where all visible cells are written the contents
    ARE the std contents.  The mask leaves out exactly the cells std value-initialises but the library does
-   not (sized constructor of utl::vector, growing resize of both) — refuted below as a full statement. *)
+   not (sized constructor of utl::vector, growing resize of both) — refuted below as a full statement.
+   static_vector(n) with n > Capacity is refused since the fix "static_vector(n) refuses n > Capacity". *)
 From NM Require Import Base Index Containers ContainersProofs.
 Local Open Scope nat_scope.
 
@@ -23,12 +24,14 @@ Theorem C19_vector_memory_and_allocation_balance : forall ops,
 Proof. exact vector_memory. Qed.
 Print Assumptions C19_vector_memory_and_allocation_balance.
 
-Theorem C19_static_vector_refines_bounded_std_on_domain : forall Cap ops, ctor_fits Cap ops = true ->
+(* any history, sized constructions beyond the capacity included (refused: the object stays empty); in
+   particular size() never exceeds the capacity *)
+Theorem C19_static_vector_refines_bounded_std : forall Cap ops,
   let s := srun Cap ops in let m := smask_run Cap ops in let l := std_run (Some Cap) ops in
   agrees (sbuf (fst s)) (ssize (fst s)) (fst m) (fst l) /\ agrees (sbuf (snd s)) (ssize (snd s)) (snd m) (snd l) /\
   length (sbuf (fst s)) = Cap /\ length (sbuf (snd s)) = Cap /\ ssize (fst s) <= Cap /\ ssize (snd s) <= Cap.
 Proof. exact static_vector_refinement. Qed.
-Print Assumptions C19_static_vector_refines_bounded_std_on_domain.
+Print Assumptions C19_static_vector_refines_bounded_std.
 
 (* beyond the capacity the operation is refused and the object is unchanged *)
 Theorem C19_static_vector_refuses_beyond_capacity : forall Cap o v n,
@@ -50,20 +53,14 @@ Print Assumptions C19_copies_independent.
 Theorem C19_value_initialisation_refuted :
   (exists ops, vcontents (oa (vrun ops)) <> map Val (fst (std_run None ops)))
   /\ (exists ops, vcontents (oa (vrun ops)) = [Indet; Indet] /\ fst (std_run None ops) = [0%Z; 0%Z])
-  /\ (exists ops, ctor_fits 4 ops = true /\ scontents (fst (srun 4 ops)) <> map Val (fst (std_run (Some 4) ops))).
+  /\ (exists ops, scontents (fst (srun 4 ops)) <> map Val (fst (std_run (Some 4) ops))).
 Proof.
   split; [|split].
   - exists [Push 1%Z; Push 2%Z; Push 3%Z; Resize 1; Resize 3]. vm_compute. discriminate.
   - exists [Ctor 2]. vm_compute. split; reflexivity.
-  - exists [Push 1%Z; Push 2%Z; Resize 1; Resize 2]. vm_compute. split; [reflexivity | discriminate].
+  - exists [Push 1%Z; Push 2%Z; Resize 1; Resize 2]. vm_compute. discriminate.
 Qed.
 Print Assumptions C19_value_initialisation_refuted.
-
-(* static_vector(n) accepts n > Capacity: size() exceeds the buffer *)
-Theorem C19_static_vector_ctor_over_capacity_refuted :
-  exists ops, let s := srun 4 ops in ssize (fst s) > 4 /\ ssize (fst s) > length (sbuf (fst s)).
-Proof. exists [Ctor 6]. vm_compute. split; repeat constructor. Qed.
-Print Assumptions C19_static_vector_ctor_over_capacity_refuted.
 
 (* maybe<T> / either<T,..> for a non-trivial T: assigning a value into an empty object runs T::operator= on raw
    storage, and no destructor of T ever runs *)
@@ -81,6 +78,7 @@ Example C19_nonvacuous_1 :
 Proof. vm_compute. repeat split. Qed.
 Example C19_nonvacuous_2 :
   let ops := [Push 1%Z; Push 2%Z; Push 3%Z; Push 4%Z; Push 5%Z; Resize 6; CopyCtor] in
-  ctor_fits 4 ops = true /\ scontents (fst (srun 4 ops)) = [Val 1%Z; Val 2%Z; Val 3%Z; Val 4%Z] /\
-  fst (std_run (Some 4) ops) = [1%Z; 2%Z; 3%Z; 4%Z].
+  scontents (fst (srun 4 ops)) = [Val 1%Z; Val 2%Z; Val 3%Z; Val 4%Z] /\
+  fst (std_run (Some 4) ops) = [1%Z; 2%Z; 3%Z; 4%Z] /\
+  ssize (fst (srun 4 [Push 7%Z; Ctor 6])) = 0 /\ fst (std_run (Some 4) [Push 7%Z; Ctor 6]) = [].
 Proof. vm_compute. repeat split. Qed.
